@@ -94,54 +94,67 @@ pub fn stub_five(this: &Five) -> (u16, Five) {
     }
 }
 
-/// Variant for C08: the five slots may hold the base cards shifted by the SAME number k of suit shifts
-/// (that is what shifting a whole hand produces).  The value depends on the set of base cards only — i.e. the
-/// abstraction additionally builds in "a uniform suit shift does not change a five-card value", which the
-/// c08_value_* harnesses establish on the real evaluator (and C01 through the suit-blind ordinal).
+/// Variant for C08: the five slots hold the base cards after the SAME number `CURK` of suit shifts (that is
+/// what shifting a whole hand produces; the harness announces k before ranking the shifted hand).  The value
+/// depends on the set of base cards only — i.e. this abstraction additionally builds in "a uniform suit shift does
+/// not change a five-card value", which the c08_value_* harnesses establish on the real evaluator (and C01 through
+/// the suit-blind ordinal).
+pub static mut CURK: usize = 0;
+pub static mut BASEK: [[u32; 7]; 4] = [[0; 7]; 4];
+
 pub fn spec_shift(w: u32, k: u32) -> u32 {
-    // S1: shift moves suit s -> s+3 mod 4 (S->H->D->C->S), k times
+    // S1: one shift moves suit s -> s+3 mod 4 (S->H->D->C->S)
     let r = (w >> 8) & 15;
     let s = crate::spec::cards::suit_of(w);
     crate::spec::cards::word(r, (s + 3 * k) % 4)
 }
 
-pub fn mask_of_shifted(a: [u32; 5]) -> Option<usize> {
-    let mut k = 0u32;
-    while k < 4 {
-        let mut m = 0usize;
-        let mut ok = true;
-        let mut i = 0;
-        while i < 5 {
-            let mut found = 8usize;
+pub fn install_shift(base: &[u32]) {
+    install(base, true);
+    unsafe {
+        let mut k = 0;
+        while k < 4 {
             let mut j = 0;
-            while j < unsafe { NBASE } {
-                if found == 8 && spec_shift(unsafe { BASE[j] }, k) == a[i] {
-                    found = j;
-                }
+            while j < base.len() {
+                BASEK[k][j] = spec_shift(base[j], k as u32);
                 j += 1;
             }
-            if found == 8 || (m >> found) & 1 == 1 {
-                ok = false;
-            } else {
-                m |= 1 << found;
-            }
-            i += 1;
+            k += 1;
         }
-        if ok {
-            return Some(m);
-        }
-        k += 1;
+        CURK = 0;
     }
-    None
+}
+
+pub fn set_shift(k: usize) {
+    unsafe { CURK = k }
 }
 
 #[cfg(kani)]
 pub fn stub_five_shift(this: &Five) -> (u16, Five) {
-    match mask_of_shifted(this.to_arr()) {
-        Some(m) => (entry(m), *this),
-        None => {
-            kani::assert(false, "S5 (shift variant): evaluator reached with a hand that is not five distinct base cards under one uniform shift");
-            (kani::any(), *this)
+    let a = this.to_arr();
+    let k = unsafe { CURK };
+    let mut m = 0usize;
+    let mut ok = true;
+    let mut i = 0;
+    while i < 5 {
+        let mut found = 8usize;
+        let mut j = 0;
+        while j < unsafe { NBASE } {
+            if found == 8 && unsafe { BASEK[k][j] } == a[i] {
+                found = j;
+            }
+            j += 1;
         }
+        if found == 8 || (m >> found) & 1 == 1 {
+            ok = false;
+        } else {
+            m |= 1 << found;
+        }
+        i += 1;
     }
+    if !ok {
+        kani::assert(false, "S5 (shift variant): evaluator reached with a hand that is not five distinct base cards under the announced uniform shift");
+        return (kani::any(), *this);
+    }
+    (entry(m), *this)
 }
